@@ -315,6 +315,26 @@ def eval_block(block, acc):
                             acc.transitions += n
                             for key, detail in out:
                                 acc.violation(key + "|by_reader", {"reader": [f.hex() for f in order], "rmode": rmode, "pbf": pbf}, detail)
+    elif kind == "alias":
+        # array attributes are delivered as lists: a caller may edit a list it was given; a later parse of the same
+        # (and of another) payload must still decode its own bytes
+        for e in C.entries():
+            if not (e.routed and not C.invalid_types(e.pdict) and e.clsid) or "A2" not in repr(e.pdict):
+                continue
+            for cnt in (1, 2):
+                pl = C.build_payload(e, lambda x: cnt, cnt, bg)
+                if pl is None:
+                    continue
+                for pbf in (1, 0):
+                    try:
+                        m1 = UBXReader.parse(ref.frame(e.clsid[0], e.clsid[1], pl), msgmode=e.mode, parsebitfield=pbf)
+                        for k, v in m1.__dict__.items():
+                            if isinstance(v, list) and v:
+                                v[0] = (v[0] + 1) % 256
+                                v.append(7)
+                    except Exception:  # noqa: BLE001
+                        pass
+                    record(acc, e.mode, e.clsid, pl, pbf, "alias", e.label)
     elif kind == "afterfail":
         # ~1,000 operations that fail inside a group, then every definition parsed again in the same process
         from mc import failops
@@ -356,7 +376,7 @@ def run_tier(tier, t0):
     blocks += [("variants", i, 16, q) for i in range(16)]
     blocks += [("cfgdb", 32 * i, 8, q) for i in range(8)]
     blocks += [("crossmode", i, 8, q) for i in range(8)]
-    blocks += [("afterfail", q)]
+    blocks += [("afterfail", q), ("alias", q)]
     blocks += [("reader", i, 8, q) for i in range(8)]
     acc = engine.sweep(blocks, eval_block)
     routed = [e for e in ents if e.routed]
